@@ -496,11 +496,15 @@ class RoomManager(BaseManager):
             room = self.get_or_create_room(room_name, private=True)
             room.operators.add(me.name)
 
-        # Remove all rooms no longer tracked
+        # Remove all rooms no longer tracked. Rooms we are currently joined in
+        # are kept: the room list does not necessarily contain all public rooms
+        # (after logon only rooms with 5 or more users are listed) and
+        # receiving it does not make us leave a room
         all_rooms = set(message.rooms) | set(message.rooms_private) | set(message.rooms_private_owned)
         unknown_rooms = set(self._rooms.keys()) - all_rooms
         for unknown_room in unknown_rooms:
-            del self._rooms[unknown_room]
+            if not self._rooms[unknown_room].joined:
+                del self._rooms[unknown_room]
 
         # For the remaining rooms update owner, operators, members, private
         for room_name, room in self._rooms.items():
@@ -514,7 +518,8 @@ class RoomManager(BaseManager):
             if room_name not in message.rooms_private:
                 room.members.discard(me.name)
 
-            room.private = room_name not in message.rooms
+            if room_name in all_rooms:
+                room.private = room_name not in message.rooms
 
         await self._event_bus.emit(
             RoomListEvent(
